@@ -7,6 +7,7 @@ import (
 	"path"
 	"path/filepath"
 	"strconv"
+	"strings"
 	"sync"
 
 	"go.uber.org/zap"
@@ -185,6 +186,17 @@ func (d *Directory) AddTimeBucket(tbk *io.TimeBucketKey, f *io.TimeBucketInfo) (
 
 	catkeySplit := tbk.GetCategories()
 	datakeySplit := tbk.GetItems()
+
+	// Every item of the key becomes a directory below the root: refuse items that would
+	// lead elsewhere ("..", ".", empty) and keys whose items do not match their categories.
+	if len(datakeySplit) != len(catkeySplit) {
+		return fmt.Errorf("bucket key %q: %d items for %d categories", tbk.String(), len(datakeySplit), len(catkeySplit))
+	}
+	for _, item := range datakeySplit {
+		if item == "" || item == "." || item == ".." || strings.ContainsAny(item, "/\x00") {
+			return fmt.Errorf("bucket key %q: %q cannot be used as a directory name", tbk.String(), item)
+		}
+	}
 
 	dirname := d.GetPath()
 	for i, dataDirName := range datakeySplit {
